@@ -678,10 +678,13 @@ class Obl:
     __slots__ = ("fn", "block", "kind", "detail", "terms", "line", "status", "reason", "width")
 
     def key(self):
-        return "%s|%s|%s" % (self.fn.id, self.kind, "|".join(norm_text(t) for t in self.terms))
+        ts = [norm_text(t) for t in self.terms]
+        if self.kind in ("overflow:Add", "overflow:Mul"):
+            ts = sorted(ts)
+        return "%s|%s|%s" % (self.fn.id, self.kind, "|".join(ts))
 
     def old_key(self):
-        return "%s|%s|%s" % (self.fn.id, self.kind, "|".join(norm_text_named(t) for t in self.terms))
+        return "%s|%s|%s" % (self.fn.id, self.kind, "|".join(norm_text_v1(t) for t in self.terms))
 
     def __repr__(self):
         return "Obl(%s %s %s @%s: %s)" % (self.fn.id[-60:], self.kind, [fmt(t)[:60] for t in self.terms], self.line, self.status)
@@ -710,7 +713,42 @@ def anon(t, ups=None):
                 out.append(tuple(anon(z, ups) if isinstance(z, tuple) else z for z in y))
         else:
             out.append(y)
+    # commutative operators: operand order is not semantics
+    if out and out[0] == "bin" and len(out) >= 4 and str(out[1]).replace("WithOverflow", "").replace("Unchecked", "") in COMMUTATIVE:
+        a, b = out[2], out[3]
+        if repr(b) < repr(a):
+            out[2], out[3] = b, a
     return tuple(out)
+
+
+COMMUTATIVE = ("Add", "Mul", "BitAnd", "BitOr", "BitXor", "Eq", "Ne")
+
+
+def norm_text_v1(t):
+    """key text before operand-order canonicalisation (kept for migrating tables)"""
+    def anon1(t, ups):
+        if not isinstance(t, tuple) or not t:
+            return t
+        if t[0] == "param":
+            return ("param", "$%d" % t[2] if isinstance(t[2], int) else t[1], t[2])
+        if t[0] == "phi":
+            return ("phi", 0, None)
+        if t[0] == "upvar":
+            k = ups.setdefault(t[1], len(ups) + 1)
+            return ("upvar", "^%d" % k)
+        out = []
+        for y in t:
+            if isinstance(y, tuple):
+                if y and isinstance(y[0], str):
+                    out.append(anon1(y, ups))
+                else:
+                    out.append(tuple(anon1(z, ups) if isinstance(z, tuple) else z for z in y))
+            else:
+                out.append(y)
+        return tuple(out)
+    s = fmt(anon1(t, {}))
+    s = re.sub(r"φ_\d+", "φ", s)
+    return s[:160]
 
 
 def norm_text_named(t):
